@@ -1214,6 +1214,16 @@ class FG:
             self.emit('i2' + prec, R(t), R(r.choice(self.O)))
             a = R(t)
         a, b = self.special_fp(prec, a, b)
+        if not self.FN[prec] and self.X and r.random() < self.opts.get('p_branch_nan', 0.35):
+            # no NaN register in this function (lean bodies, no integer parameter): make one here from an
+            # unknown zero, so that ordered / unordered outcomes of every FP branch shape occur everywhere
+            z, nn = self.new_local('fz', prec), self.new_local('fnan', prec)
+            self.emit('i2' + prec, R(z), self.X_())
+            self.emit(prec + 'sub', R(z), R(z), R(z))
+            self.emit(prec + 'div', R(nn), R(z), R(z))
+            if r.random() < 0.5: a = R(nn)
+            else: b = R(nn)
+            self.p.features.add('fp:nan-inf-operands')
         self.emit(op, lt, a, b)
         flag = self.X_()
         if r.random() < 0.5:
